@@ -59,6 +59,17 @@ def check_boards(case):
     # --- Ethernet chip list
     with sut("spinn5_eth_coords"):
         got = list(geometry.spinn5_eth_coords(w, h, rx, ry))
+        # asking again (same arguments, in the same process) must give the
+        # same answer - also when the first answer was only partly consumed
+        part = geometry.spinn5_eth_coords(w, h, rx, ry)
+        for _ in zip(range(1), part):
+            pass
+        again = list(geometry.spinn5_eth_coords(w, h, rx, ry))
+    require(sorted(map(tuple, again)) == sorted(map(tuple, got)),
+            "spinn5_eth_coords gives a different answer when asked a second "
+            "time with the same arguments",
+            {"first": sorted(map(tuple, got)),
+             "second": sorted(map(tuple, again))})
     expect = set((x, y) for x in range(w) for y in range(h)
                  if bt.is_origin(x, y, rx, ry))
     require(len(got) == len(set(got)),
